@@ -1,6 +1,7 @@
 package functions
 
 import (
+	"fmt"
 	"math"
 	"sort"
 	"strconv"
@@ -13,6 +14,9 @@ import (
 func divide(context *api.Context, a b6.Number, b b6.Number) (b6.Number, error) {
 	if a, ok := a.(b6.IntNumber); ok {
 		if b, ok := b.(b6.IntNumber); ok {
+			if b == 0 {
+				return nil, fmt.Errorf("divide: integer division by zero")
+			}
 			return b6.IntNumber(int(a) / int(b)), nil
 		}
 		return b6.FloatNumber(float64(a) / float64(b.(b6.FloatNumber))), nil
